@@ -74,14 +74,41 @@ def run(tier, replay=None):
     blocks = parse_blocks(out)
     bad = [(cid, oracle(c, blocks.get(cid, {"lines": []}))) for cid, c in cases.items()]
     bad = [(cid, why) for cid, why in bad if why]
+    # hubs of very large degree (beyond 2^16 tree children of the root): one tree only, python oracle only (distances, predecessor
+    # edges, first-in-path labels, the candidates the tree offers) — fixed-width counters / ids of per-root-child state
+    hub = None
+    if not replay:
+        hub = {"runs": 0, "max_degree": 0}
+        for m_sp in ((70000,) if tier == "quick" else (70000, 140000)):
+            n = m_sp + 1
+            WE = [(0, i, 1) if r.random() < .5 else (i, 0, 1) for i in range(1, n)] + [(i, i + 1, 3) for i in range(1, n - 1) if i % 16 == 0 or i > n - 40] + [(n - 1, 1, 3)]
+            rcH, outH, errH = run_harness(binary, render_graph("hub%d" % m_sp, "tree1", "d", 0, [0], n, WE), timeout=900)
+            b = parse_blocks(outH).get("hub%d" % m_sp, {"lines": []})
+            hub["runs"] += 1; hub["max_degree"] = max(hub["max_degree"], m_sp)
+            why = None
+            if rcH != 0 or line(b, "first") is None: why = "no result on a wheel with %d spokes (crash)" % m_sp
+            else:
+                dist, pred, first = line(b, "dist"), line(b, "pred"), line(b, "first")
+                rim = [e for e in range(m_sp, len(WE))]
+                for v in range(1, n):
+                    if dist[v] != "1" or pred[v] != str(v - 1): why = "hub tree: vertex %d has distance %s / predecessor edge %s, expected 1 / %d" % (v, dist[v], pred[v], v - 1); break
+                    if first[v] != str(v): why = "hub tree: first(%d) = %s, the path starts with %d" % (v, first[v], v); break
+                if why is None and (first[0] != "0" or dist[0] != "0"): why = "hub tree: root labels wrong"
+                if why is None and sorted(map(int, line(b, "cedges") or [])) != rim:
+                    why = "hub tree offers %s candidates, every one of the %d rim edges closes a cycle through the hub" % (line(b, "ncand"), len(rim))
+            if why: bad.append(("hub%d" % m_sp, why)); cases["hub%d" % m_sp] = (n, WE[:0], 0, "hub")
     verdicts = run_driver(out) if lean_ok else []
     oks, diffs, viols = parse_driver(verdicts)
+    res.coverage["large_degree_hub_trees"] = hub
     res.coverage.update({"evaluations": len(cases), "distinct_nontrivial": distinct_nontrivial(cases, lambda c: len(c[1]) >= 3),
         "rule": "graphs as in C16 biased to many equal-length shortest paths (unit weights, grids, hypercubes, K_ab, K_n); one tree per source vertex; non-trivial = at least 3 edges",
         "traces_validated_against_impl": len(oks), "trees_total": sum(int(w[4]) for w in oks),
         "samples": [{"n": c[0], "edges": c[1]} for c in list(cases.values())[-2:]], **stats(cases)})
     if bad or viols:
         cid, why = bad[0] if bad else (viols[0][1], " ".join(viols[0][2:]))
+        if cid.startswith("hub"):
+            res.violation("SPTree: " + why, {"kind": "wheel", "spokes": int(cid[3:]), "generator": "checks/c12.py: hub 0, spokes of weight 1, rim edges of weight 3", "why": why})
+            return res.finish()
         def still_bad(c):
             rc, o, e = run_graph_kind(binary, "trees", {"s": c})
             if rc != 0 or oracle(c, parse_blocks(o).get("s", {"lines": []})) is not None: return True
